@@ -598,6 +598,29 @@ def fault_part(ctx, real, quick):
                 problems.append((case, "%s: g and last copied" % h.decode(), "g: %s last: %s; stderr tail %r" % (str(gcopy)[:60], str(lcopy)[:60], e[-200:]),
                                  "files that follow two refused entries with long paths were not copied to %s" % h.decode())); break
         shutil.rmtree(root, ignore_errors=True)
+    # (g) rpdcp WITHOUT -r from a peer that sends what it likes: four hundred nested directory records (the receiver recurses on
+    #     every one it is fed), and a peer that stalls in the middle of a file for longer than the command time-out (-u 1: the
+    #     watchdog then signals the receiving thread every two seconds).  rpdcp must survive both.
+    for rep, (what, body, opts) in enumerate([
+            ("400 nested directory records, no -r", "i=0; while [ $i -lt 400 ]; do printf 'D0755 0 d\\n'; i=$((i+1)); done; printf 'C0644 4 leaf\\ndeep\\0'; "
+                                                    "i=0; while [ $i -lt 400 ]; do printf 'E\\n'; i=$((i+1)); done; sleep 1", []),
+            ("a peer that stalls 5 s in the middle of a file, -u 1", "printf 'C0644 20000 f\\n'; head -c 9000 /dev/zero; sleep 5; head -c 11000 /dev/zero; printf '\\0'; sleep 1", ["-u", "1"])]):
+        root = os.path.join(base, "hostile%d" % rep)
+        tree = ("D", 0o755, 900000000, {b"out": ("D", 0o755, 900000000, {})})
+        for h in HOSTS[:2]:
+            tree = put(tree, [h], ("D", 0o755, 900000000, {b"f": ("F", 0o644, 1000000000, b"x")}))
+        pcpeng.materialize(tree, root)
+        wrap = os.path.join(root, "peer.sh")
+        with open(wrap, "w") as fh:
+            fh.write("#!/bin/sh\n# stands in for the remote pdcp: ignores its arguments, drains the acknowledgements, writes records\nexec 3<&0\ncat <&3 > /dev/null &\n" + body + "\nkill $! 2>/dev/null\n")
+        os.chmod(wrap, 0o755)
+        rc, o, e = real.run(["-Rpcptest", "-e", wrap] + opts + ["-w", ",".join(h.decode() for h in HOSTS[:2]), b"f", b"out"], prog="rpdcp", cwd=root, timeout=60)
+        nruns += 1
+        case = {"kind": "rpdcp from a peer that sends " + what, "hosts": [h.decode() for h in HOSTS[:2]]}
+        cr = pcpeng.crashed(rc, e)
+        if cr:
+            problems.append((case, "rpdcp survives (error records or copies, no crash)", cr, "rpdcp crashed or did not end with a peer that sends %s: %s" % (what, cr)))
+        shutil.rmtree(root, ignore_errors=True)
     # (f) the dispatcher is slow between testing "is there room" and going to sleep (pthread_cond_wait delayed by a shim):
     #     the completion of a copy must not be missed - with -f 1 the next target would never be started
     shim = os.path.join(ctx.scratch, "slowcondwait.so")
